@@ -158,4 +158,4 @@ def _check_own(ctx):
 def check(ctx):
     _check_own(ctx)
     from .engine import import_rules
-    import_rules(ctx, "c03", {"dirty-raised", "sync-chain", "db-sync-visits-every-map", "db-sync-method"})
+    import_rules(ctx, "c03", {"dirty-raised", "sync-chain", "db-sync-visits-every-map", "db-sync-method", "db-sync-registries", "db-sync-result"})
